@@ -5,6 +5,8 @@ Script (see coq/Gate/Model.v `run`, harness/src/bin/gates.rs):
   op = 1 a b l  a.connect(b, channel)   l = 0: no channel, else latency l-1 ns (bitrate 0, jitter 0)
      | 2 g kind | 3 g next_gate | 4 g path_end | 5 g path_iter
      | 6 g t d  at time t the owner of gate g calls send_at(msg, g, t+d)
+     | 7 g g' d forwarding rule: the module receiving a message through gate g sends THE RECEIVED object on g' after d ns
+     | 8 g t d b  as 6, the message may be relayed min(b,8) times
 """
 import itertools
 
@@ -13,7 +15,8 @@ COQ_PROP = "Properties/C08.v"; COQ_DIRS = ["Common", "Gate"]
 COQ_MODULE = "Gate.Model"; RUN_FN = "run"
 THEOREMS = ["C08_invariant_reachable", "C08_sym", "C08_fill_order", "C08_degree_le_2", "C08_slots_monotone", "C08_third_peer_rejected",
             "C08_connect_symmetric", "C08_connect_idempotent", "C08_walk_from_endpoint_terminates",
-            "C08_mirror", "C08_delivered_once_to_far_owner", "C08_both_directions", "C08_script_deliveries"]
+            "C08_mirror", "C08_delivered_once_to_far_owner", "C08_both_directions", "C08_relay_header_per_leg",
+            "C08_script_deliveries"]
 QUICK_N = 6000; THOROUGH_N = 150000
 CLAIM = dict(
     text="Machine-checked (Coq 8.16, axiom-free) for EVERY gate declaration and EVERY sequence of connect calls (any order, orientation, channels, duplicates, rejected calls) on a function-by-function model of gate.rs connect/next_hop/PathIter, events.rs handle_with_sink and ctx.rs buf_send_at: the slot tables stay symmetric (g.slot i = (h,j) implies h.slot j = (g,i), same channel), slot 1 is used only after slot 0, a gate has at most two distinct peers, established connections are never overwritten and a third peer is rejected in either orientation; a.connect(b) and b.connect(a) yield the same table and a repeated connect is a no-op; the walk from any non-transit gate terminates within fuel 2*|gates|+1 (injective step + no predecessor of the start state, pigeonhole); path_iter from the far end is the exact mirror image (gates and channels reversed); a message sent on a non-transit gate yields exactly one delivery, to the owner of the far-end gate, at send time + sum of the per-hop channel latencies, with header sender/receiver/last_gate as specified, and the same total delay in the opposite direction. The model is tied to the des crate by differential runs (extracted model vs real Sim/Gate/Channel/send_at on generated scripts: chains of 1..12 hops over 1..6 modules and clusters, all permutations x orientations for <= 5 hops in the thorough tier, immediate/delayed sends, both directions) plus an independent monitor that states C08 on the implementation's output alone.",
@@ -24,7 +27,9 @@ RULE = ("scripts declare 1..6 modules and gate groups (single gates and clusters
         " of 1..12 hops in a random permutation and random orientation with channels (latency-only) on random hops, duplicate"
         " connects, occasional ring closures, and a malformed stream (self-connects, third-peer connects, unknown gates);"
         " kind/next_gate/path_end/path_iter are queried between and after the connects, messages are sent from both ends of"
-        " every chain (from at_sim_start, immediately and delayed); non-trivial = distinct script that hits at least three"
+        " every chain (from at_sim_start, immediately and delayed); in ~30 % of the scripts modules carry forwarding rules"
+        " (the received Message object is echoed back or forwarded onto another chain, immediately or delayed, up to a hop"
+        " budget) and every leg's header is checked; non-trivial = distinct script that hits at least three"
         " targeted mechanisms and delivers a message over, or enumerates, a path of at least two hops")
 TRUSTED = ["channels are latency-only (bitrate 0, jitter 0): per-hop delay = latency exactly; busy/queueing channels are C07's subject",
            "all modules stay active (no shutdown during the run; the inactive-owner drop in handle_with_sink is C09's subject)",
@@ -43,7 +48,7 @@ def split(script):
     hdr = script[:2 + L]
     ops, i = [], 2 + L
     while i < len(script):
-        k = {1: 4, 2: 2, 3: 2, 4: 2, 5: 2, 6: 4}.get(script[i])
+        k = {1: 4, 2: 2, 3: 2, 4: 2, 5: 2, 6: 4, 7: 4, 8: 5}.get(script[i])
         if k is None or i + k > len(script):
             break
         ops.append(script[i:i + k]); i += k
@@ -89,6 +94,10 @@ def pretty(script):
             parts.append("g%d.connect(g%d%s)" % (o[1], o[2], "" if o[3] == 0 else ",lat=%dns" % (o[3] - 1)))
         elif o[0] == 6:
             parts.append("send(g%d,at=%d,delay=%d)" % (o[1], o[2], o[3]))
+        elif o[0] == 8:
+            parts.append("send(g%d,at=%d,delay=%d,relays<=%d)" % (o[1], o[2], o[3], min(o[4], 8)))
+        elif o[0] == 7:
+            parts.append("relay(via g%d -> resend on g%d after %d)" % (o[1], o[2], o[3]))
         else:
             parts.append("%s(g%d)" % ({2: "kind", 3: "next_gate", 4: "path_end", 5: "path_iter"}[o[0]], o[1]))
     return s + "; ".join(parts)
@@ -152,7 +161,7 @@ def records(script, out):
                     raise ValueError("truncated path_iter record")
                 ln = 3 + 2 * out[i + 2]
         else:
-            ln = {1: 1, 2: 2, 3: 2, 4: 2, 6: 1, 7: 1, 8: 1, 9: 2}.get(tag)
+            ln = {1: 1, 2: 2, 3: 2, 4: 2, 6: 1, 7: 1, 8: 1, 9: 2, 14: 1}.get(tag)
         if ln is None or i + ln > len(out):
             raise ValueError("bad record tag %s at %d" % (tag, i))
         recs.append((o, out[i:i + ln])); i += ln
@@ -160,19 +169,37 @@ def records(script, out):
 
 
 def parse_tail(tail):
-    """-> ('skipped' | 'log', deliveries {k: [rec]}, panics {k: [site]}, extra tags)"""
+    """-> ('skipped' | 'log', deliveries {(k, leg): [rec]}, panics {(k, leg): [site]}, extra tags)"""
     if tail == [10]:
         return "skipped", {}, {}, []
     i, dl, pn, extra = 0, {}, {}, []
     while i < len(tail):
         t = tail[i]
-        if t == 11 and i + 7 <= len(tail):
-            dl.setdefault(tail[i + 1], []).append(tail[i + 2:i + 7]); i += 7
-        elif t == 12 and i + 3 <= len(tail):
-            pn.setdefault(tail[i + 1], []).append(tail[i + 2]); i += 3
+        if t == 11 and i + 8 <= len(tail):
+            dl.setdefault((tail[i + 1], tail[i + 2]), []).append(tail[i + 3:i + 8]); i += 8
+        elif t == 12 and i + 4 <= len(tail):
+            pn.setdefault((tail[i + 1], tail[i + 2]), []).append(tail[i + 3]); i += 4
         else:
             extra.append(t); i += 1
     return "log", dl, pn, extra
+
+
+def itinerary(G, own, rules, g, t, d, b):
+    """The legs the property prescribes for one message: [(leg, gate sent on, sending module, send time,
+    None | (receiving module, arrival, far gate))]; None = send on a transit gate (documented panic)."""
+    out, cur, gate, when = [], own[g], g, t + d
+    for leg in range(b + 1):
+        if G.deg(gate) == 2:
+            out.append((leg, gate, cur, when, None)); break
+        p = G.path(gate)
+        far = p[-1][0] if p else gate
+        arrive = when + sum(l for _, l in p if l is not None)
+        out.append((leg, gate, cur, when, (own[far], arrive, far)))
+        r = rules.get(far)
+        if r is None:
+            break
+        cur, gate, when = own[far], r[0], arrive + r[1]
+    return out
 
 
 def monitor(script, out):
@@ -189,14 +216,20 @@ def monitor(script, out):
     version = 0
     iters = {}           # (version, g) -> [gates]
     sends = []
+    rules = {}           # arrival gate -> (out gate, delay); first rule wins
     for o, r in recs:
-        gs = [o[1], o[2]] if o[0] == 1 else [o[1]]
+        gs = [o[1], o[2]] if o[0] in (1, 7) else [o[1]]
         if any(g >= n for g in gs):
             if r != [7]:
                 return "operation on an unknown gate answered %s" % r
             continue
         if r == [8]:
             return "walk ran out of fuel"
+        if o[0] == 7:
+            if r != [14]:
+                return "rule record %s" % r
+            rules.setdefault(o[1], (o[2], o[3]))
+            continue
         if o[0] == 1:
             a, b, l = o[1], o[2], o[3]
             lat = None if l == 0 else l - 1
@@ -219,10 +252,10 @@ def monitor(script, out):
                     return "connect(g%d,g%d) between gates with free slots failed: %s" % (a, b, r)
                 G.add(a, b, lat); version += 1
             continue
-        if o[0] == 6:
+        if o[0] in (6, 8):
             if r != [6]:
                 return "send record %s" % r
-            sends.append((o[1], o[2], o[3]))
+            sends.append((o[1], o[2], o[3], min(o[4], 8) if o[0] == 8 else 0))
             continue
         g = o[1]
         if r == [9, 4]:
@@ -271,27 +304,31 @@ def monitor(script, out):
         return None
     if extra:
         return "run failed or unexpected records in the delivery log: %s" % extra
-    for k, (g, t, d) in enumerate(sends):
-        if G.deg(g) == 2:
-            if pn.get(k) != [3] or k in dl:
-                return "send #%d on transit gate g%d: expected the documented panic, got deliveries=%s panics=%s" % (k, g, dl.get(k), pn.get(k))
-            continue
-        if k in pn:
-            return "send #%d on g%d panicked (%s)" % (k, g, pn[k])
-        got = dl.get(k, [])
-        if len(got) != 1:
-            return "send #%d on g%d was delivered %d times" % (k, g, len(got))
-        p = G.path(g)
-        far = p[-1][0] if p else g
-        arrive = t + d + sum(l for _, l in p if l is not None)
-        exp = [own[far], arrive, own[g], own[far], far + 1]
-        if got[0] != exp:
-            names = ["receiving module", "arrival time", "header.sender", "header.receiver", "last_gate+1"]
-            bad = [names[j] for j in range(5) if got[0][j] != exp[j]]
-            return "send #%d on g%d (t=%d,d=%d): %s wrong: got %s expected %s" % (k, g, t, d, ", ".join(bad), got[0], exp)
-    for k in list(dl) + list(pn):
-        if k >= len(sends):
-            return "delivery of a message #%d that was never sent" % k
+    expected = set()
+    for k, (g, t, d, b) in enumerate(sends):
+        for leg, gate, cur, when, res in itinerary(G, own, rules, g, t, d, b):
+            expected.add((k, leg))
+            what = "send #%d leg %d (m%d sends on g%d at %d)" % (k, leg, cur, gate, when)
+            if res is None:
+                if pn.get((k, leg)) != [3] or (k, leg) in dl:
+                    return "%s on a transit gate: expected the documented panic, got deliveries=%s panics=%s" % (
+                        what, dl.get((k, leg)), pn.get((k, leg)))
+                continue
+            if (k, leg) in pn:
+                return "%s panicked (%s)" % (what, pn[(k, leg)])
+            got = dl.get((k, leg), [])
+            if len(got) != 1:
+                return "%s was delivered %d times" % (what, len(got))
+            to, arrive, far = res
+            exp = [to, arrive, cur, to, far + 1]
+            if got[0] != exp:
+                names = ["receiving module", "arrival time", "header.sender (the module that performed this send)",
+                         "header.receiver", "last_gate+1"]
+                bad = [names[j] for j in range(5) if got[0][j] != exp[j]]
+                return "%s: %s wrong: got %s expected %s" % (what, ", ".join(bad), got[0], exp)
+    for key in list(dl) + list(pn):
+        if key not in expected:
+            return "delivery (message #%d, leg %d) that the script does not call for" % key
     return None
 
 
@@ -305,10 +342,13 @@ def mechanisms(script, out):
     chan = {}
     poisoned = False
     conn_seq = []
+    rules = {}
     for o in ops:
-        gs = [o[1], o[2]] if o[0] == 1 else [o[1]]
+        gs = [o[1], o[2]] if o[0] in (1, 7) else [o[1]]
         if any(g >= n for g in gs):
             m.add("unknown_gate"); continue
+        if o[0] == 7:
+            rules.setdefault(o[1], (o[2], o[3])); continue
         if o[0] == 1:
             a, b = o[1], o[2]
             if a == b:
@@ -339,8 +379,29 @@ def mechanisms(script, out):
     if poisoned: m.add("poisoned")
     ends = {}
     for o in ops:
-        if o[0] != 6 or o[1] >= n: continue
+        if o[0] not in (6, 8) or o[1] >= n: continue
         g, t, d = o[1], o[2], o[3]
+        # relay legs of this message
+        b = min(o[4], 8) if o[0] == 8 else 0
+        cur, gate, nlegs = own[g], g, 0
+        for leg in range(b + 1):
+            if len(slots[gate]) == 2:
+                if leg: m.add("relay_onto_transit_gate")
+                break
+            pth = walk_slots(slots, gate)
+            far = pth[-1] if pth else gate
+            nlegs += 1
+            if leg:
+                m.add("relay_sender_differs_from_origin" if cur != own[g] else "relay_sender_same_module_as_origin")
+            r = rules.get(far)
+            if r is None or leg == b: break
+            if r[0] == far: m.add("echo_back")
+            else:
+                m.add("forwarded_message_object")
+                if own[r[0]] != own[far]: m.add("forward_on_foreign_gate")
+            m.add("relay_delayed" if r[1] else "relay_immediate")
+            cur, gate = own[far], r[0]
+        if nlegs >= 3: m.add("relay_3plus_legs")
         if len(slots[g]) == 2:
             m.add("send_on_transit"); continue
         if len(slots[g]) == 0:
@@ -407,7 +468,7 @@ def rand_time(rng):
     return rng.choice([1000, 2500000, 10 ** 9, rng.randint(1, 10 ** 10)])
 
 
-def gen_script(rng, malformed=False):
+def gen_script(rng, malformed=False, relays=False):
     nmod = rng.randint(1, 6)
     nchains = rng.choice([1, 1, 1, 2, 2, 3, 4])
     hops = []
@@ -487,6 +548,30 @@ def gen_script(rng, malformed=False):
             ops.append([6, rng.choice(c[1:-1]), rand_time(rng), rng.choice([0, 2])])   # transit gate: documented panic
     if spare and rng.random() < 0.3:
         ops.append([6, spare[0], rand_time(rng), rng.choice([0, 2])])
+    if relays:
+        # RELAY stream: forwarding rules at chain ends (echo back / forward onto another chain, immediate / delayed)
+        ends = [c[0] for c in chains] + [c[-1] for c in chains]
+        own = owners_of([nmod, len(grp)] + grp)
+        rops = []
+        for e in rng.sample(ends, rng.randint(1, len(ends))):
+            q = rng.random()
+            if q < 0.35 or len(ends) < 3:
+                out = e                                                   # echo back on the arrival chain
+            else:
+                cand = [x for x in ends if x != e and own[x] == own[e]] if rng.random() < 0.6 else []
+                out = rng.choice(cand or [x for x in ends if x != e])     # forward (usually on a gate of the same module)
+            if rng.random() < 0.05 and spare:
+                out = spare[0]
+            rops.append([7, e, out, rng.choice([0, 0, 1, 3, 1000, 10 ** 9])])
+        if rng.random() < 0.1:
+            rops.append([7, rng.choice(ends), rng.randrange(n), 0])        # shadowed / arbitrary rule
+        sops = []
+        for _ in range(rng.randint(1, 3)):
+            sops.append([8, rng.choice(ends), rand_time(rng), rng.choice([0, 0, 2, 1000]), rng.randint(1, 5)])
+        if rng.random() < 0.5:
+            ops = ops + rops + sops
+        else:
+            ops = rops + ops + sops
     if rng.random() < 0.15:
         rng.shuffle(ops)                               # queries/sends interleaved with the construction
     return join([nmod, len(grp)] + grp, ops)
@@ -499,7 +584,7 @@ def gen(rng, n):
         if k >= n // 4: break
         yield s; k += 1
     while k < n:
-        yield gen_script(rng, malformed=(rng.random() < 0.15)); k += 1
+        yield gen_script(rng, malformed=(rng.random() < 0.15), relays=(rng.random() < 0.3)); k += 1
 
 
 def exhaustive(maxhops=5):
@@ -523,5 +608,6 @@ def exhaustive(maxhops=5):
                     ops += [[5, g], [3, g], [4, g]]
                 if k > 1:
                     ops.append([5, 1])
-                ops += [[6, 0, 3, 0], [6, k, 3, 0], [6, 0, 0, 2], [6, k, 4, 2]]
+                ops += [[6, 0, 3, 0], [6, k, 3, 0], [6, 0, 0, 2], [6, k, 4, 2],
+                        [7, k, k, 0], [7, 0, 0, 1], [8, 0, 1, 0, 2], [8, k, 0, 5, 1]]
                 yield join([3, len(grp)] + grp, ops)
